@@ -34,7 +34,7 @@ INFO = {
  "C22_2": ("TryFrom<DbValue> for f32 rejects values beyond f32::MAX, i.e. also +-infinity", "an f32 field holding an infinity", "first MISSED (no f32 in the corpus); VIOLATION by c22_scalar_conversions_are_lossless (all 2^32 f32 bit patterns) after that harness was added"),
  "C09_1": ("DbKeyValues::remove_value removes by swap-with-last instead of shifting", "an element with >= 3 keys, removal of a key with >= 2 pairs behind it, then an order-sensitive selection", "first MISSED by construction (no C09 harness removed from a list of three); VIOLATION by c09_remove_first_of_three_keeps_order after that harness was added"),
  "C18_1": ("GraphImpl::next_element skips at most ONE freed slot (`while` became `if`)", "two or more adjacent freed, not reused slots: the second freed id is returned as a live element", "VIOLATION by c18_iter_slot_order (symbolic history reaches two adjacent freed slots; the two ElementSearch harnesses on concrete histories pass)"),
- "C29_1": ("validate_log_for_vote compares the voter's last log term with the candidate's ELECTION term instead of its last log term", "a candidate with a longer log of an older term than the voter's, the voter not yet knowing the commit index; lost commit heartbeats, then re-election", "PENDING"),
+ "C29_1": ("validate_log_for_vote compares the voter's last log term with the candidate's ELECTION term instead of its last log term", "a candidate with a longer log of an older term than the voter's, the voter not yet knowing the commit index; lost commit heartbeats, then re-election", "VIOLATION by c29_vote_only_for_up_to_date_candidate (lemma L6)"),
  "C32_1": ("Storage::end_transaction flushes before decrementing the nesting counter (`?` on flush leaks the counter)", "a failing StorageData::flush at an outermost commit (writes all succeed), then a later successful mutation, close and reopen", "first MISSED by construction (the array back end's flush could not fail); VIOLATION by c32_failed_flush_closes_transaction after flush-failure injection and that harness were added"),
 }
 rows = []
